@@ -862,7 +862,7 @@ class PureScheduler:                                    # pylint: disable=r0902
         # but to skip schedulers that have already shut down
 
         if self._did_shutdown:
-            return
+            return True
 
         self._did_shutdown = True
 
